@@ -41,18 +41,26 @@ const PLACEMENTS = {
   'else-if-unbraced': (R) => `let ${R} = 'U1';\nfunction f(act) {\n  const v = $.p(act, 1) + $.p(act, 2);\n  if ($.u('c', 0)) { v.length; } else if ($.u('d', 1)) ${R} = 'U3';\n  const w = $.p(act, 3) + $.p(act, 4);\n  return v + w;\n}\nconst rd = () => ${R};\nconst after = () => $.u('outer', rd());`
 }
 
-function planH5 (rng, prefix) {
+function planH5 (rng, prefix0) {
+  let prefix = prefix0
   const names = Object.keys(PLACEMENTS)
   const placement = rng.pick(names)
   const idx = rng.pick([0, 0, 1, 1, 2, 7])
-  const R = `__datadog_${prefix}_${idx}`
+  // configured prefixes with characters beyond [A-Za-z0-9_$] (valid identifier letters), and user
+  // identifiers that equal the reserved name only after such characters are replaced
+  const variant = rng.below(6)
+  if (variant === 4) prefix = 'caf\u00e9'
+  if (variant === 5) prefix = '\u00f1and\u00fa'
+  let R = `__datadog_${prefix}_${idx}`
+  let lookalikeOnly = false
+  if (variant >= 4 && rng.chance(1, 2)) { R = `__datadog_${prefix.replace(/[^A-Za-z0-9_$]/g, '_')}_${idx}`; lookalikeOnly = true }
   const strict = rng.chance(1, 2)
   const body = PLACEMENTS[placement](R)
   const text = `${strict ? "'use strict';\n" : ''}${body}\nmodule.exports = { f, after: typeof after === 'function' ? after : null };\n`
   // an earlier rewrite of the same process used another prefix (history: the refusal must not
   // depend on which configuration was used first)
   const preJob = rng.chance(1, 2)
-  return { mode: 'h5', placement, R, strict, text, preJob }
+  return { mode: 'h5', placement: lookalikeOnly ? placement + '(normalised-lookalike)' : placement, template: placement, R, strict, text, preJob, prefix }
 }
 
 function runOnce (code, file) {
@@ -105,8 +113,6 @@ function executeH5 (plan, resp, file) {
     out.violations.push({ invariant: 'H5', key, detail: `reserved-prefix identifier ${plan.R} as ${plan.placement}: not refused, and the emitted code fails (${r.error.name}: ${r.error.message}) while the original runs` })
   } else if (norm(r.obs) !== norm(o.obs) || r.ret !== o.ret) {
     out.violations.push({ invariant: 'H5', key, detail: `reserved-prefix identifier ${plan.R} as ${plan.placement}: not refused, and user code observes different values: original ${norm(o.obs)} returns ${o.ret}; rewritten ${norm(r.obs)} returns ${r.ret}` })
-  } else if (r.hooks.some(h => h[1].some(a => /U\d/.test(a)))) {
-    out.violations.push({ invariant: 'H5', key, detail: `reserved-prefix identifier ${plan.R} as ${plan.placement}: a hook received a value written by user code: ${JSON.stringify(r.hooks)}` })
   } else if (r.leaked.length) {
     out.violations.push({ invariant: 'H5', key, detail: `injected names leaked to the global object: ${r.leaked}` })
   } else st('h5-emitted-and-harmless')
